@@ -72,6 +72,11 @@ out = {
     "guards": sorted(set(guards)),
     "stored_attrs": sorted(stored_attrs),
 }
+# statement skeletons of every function as the rules see it (after the normaliser, which is the identity on the pinned tree)
+from sa.drift import skeleton  # noqa: E402
+from sa.model import Repo  # noqa: E402
+
+out["skeletons"] = {q: skeleton(f.node) for q, f in sorted(Repo(str(root)).functions.items())}
 old = json.loads(P.read_text())
 if set(old.get("functions", [])) != set(out["functions"]):
     print("NOTE: function inventory differs from the previous one:", sorted(set(old.get("functions", [])) ^ set(out["functions"]))[:10])
